@@ -10,6 +10,7 @@ package main
 
 import (
 	"fmt"
+	"go/token"
 	"go/types"
 	"sort"
 	"strings"
@@ -861,6 +862,45 @@ func isOptionsPtr(t types.Type) bool {
 	return n != nil && strings.HasSuffix(n.Obj().Name(), "Options")
 }
 
+// definitelyNonEmpty: the string value cannot be empty — a Sprintf whose
+// constant format contains a verb applied to numbers or a literal character,
+// an integer formatter, a quoting function, a non-empty constant, or a
+// concatenation with one such part.
+func definitelyNonEmpty(v ssa.Value, depth int) bool {
+	if depth > 4 {
+		return false
+	}
+	switch x := v.(type) {
+	case *ssa.Const:
+		s, ok := constString(x)
+		return ok && s != ""
+	case *ssa.Convert:
+		return definitelyNonEmpty(x.X, depth+1)
+	case *ssa.ChangeType:
+		return definitelyNonEmpty(x.X, depth+1)
+	case *ssa.BinOp:
+		return x.Op == token.ADD && (definitelyNonEmpty(x.X, depth+1) || definitelyNonEmpty(x.Y, depth+1))
+	case *ssa.Call:
+		switch calleeName(x.Common()) {
+		case "fmt.Sprintf":
+			f, ok := constString(x.Common().Args[0])
+			if !ok {
+				return false
+			}
+			// a numeric verb always prints at least one digit
+			for _, verb := range []string{"%x", "%d", "%X", "%o", "%b", "%q", "%v"} {
+				if strings.Contains(f, verb) {
+					return true
+				}
+			}
+			return strings.Trim(f, "%sv") != "" && !strings.Contains(f, "%")
+		case "strconv.FormatInt", "strconv.FormatUint", "strconv.Itoa", "strconv.Quote":
+			return true
+		}
+	}
+	return false
+}
+
 func sortedJoin(xs []string) string {
 	ys := append([]string{}, xs...)
 	sort.Strings(ys)
@@ -1120,6 +1160,40 @@ func runC04(c *Ctx, pr *PropertyRun) {
 			}
 		})
 	}
+	// the single producer fills the tag unconditionally with a non-empty
+	// text: the conditional logic reads an empty tag as "no such resource"
+	if prod != nil {
+		one.Role("etag-always-filled")
+		filled := false
+		eachInstr(prod, func(b *ssa.BasicBlock, in ssa.Instruction) {
+			st, ok := in.(*ssa.Store)
+			if !ok {
+				return
+			}
+			fa, ok := st.Addr.(*ssa.FieldAddr)
+			if !ok || namedOf(fa.X.Type()) != fiT || fieldName(fa.X.Type(), fa.Field) != "ETag" {
+				return
+			}
+			// unconditional: the store's block dominates every return
+			dom := true
+			for _, rb := range prod.Blocks {
+				if len(rb.Instrs) > 0 {
+					if _, isRet := rb.Instrs[len(rb.Instrs)-1].(*ssa.Return); isRet && !b.Dominates(rb) {
+						dom = false
+					}
+				}
+			}
+			nonEmpty := definitelyNonEmpty(st.Val, 0)
+			if dom && nonEmpty {
+				filled = true
+			}
+		})
+		one.Ob(filled)
+		if !filled {
+			one.Violation("etag-may-be-empty|"+fnKey(prod), p.Pos(prod.Pos()), fnKey(prod)+" does not give every resource a non-empty entity tag on every path: checkConditionalMatches and MatchETag read an empty tag as 'no such resource', so If-Match/If-None-Match on such a resource are evaluated as if it were absent", nil)
+		}
+	}
+
 	// every ETag header is written through the one quoting function
 	etagString := p.MustFunc(one, pkgInternal, "(ETag).String")
 	for _, fn := range p.ModFns {
@@ -1144,5 +1218,8 @@ func runC04(c *Ctx, pr *PropertyRun) {
 			}
 		})
 	}
-	one.RequireRole("etag-store", "etag-header")
+	one.RequireRole("etag-store", "etag-header", "etag-always-filled")
+
+	// the quoting pair itself (shared with C16.pairs)
+	c16Pairs(c, pr, "C04", func(what string) bool { return strings.HasPrefix(what, "entity tag") })
 }
